@@ -355,7 +355,20 @@ impl<'a> Printer<'a> {
             Stmt::Expr(e) => out.push_str(&format!("{}{};\n", pad, self.expr(e, 0))),
             Stmt::If(c, t, e) => {
                 out.push_str(&format!("{}if ({}) ", pad, self.expr(c, 0)));
-                self.sub(t, ind, out);
+                // dangling else: a then-branch that could end in an else-less if is braced
+                fn open_if(s: &Stmt) -> bool {
+                    match s {
+                        Stmt::If(_, _, None) => true,
+                        Stmt::If(_, _, Some(e)) => open_if(e),
+                        Stmt::While(_, b) | Stmt::For(_, _, _, b) | Stmt::Labeled(_, b) => open_if(b),
+                        _ => false,
+                    }
+                }
+                if e.is_some() && open_if(t) {
+                    self.sub(&Stmt::Block(vec![(**t).clone()]), ind, out);
+                } else {
+                    self.sub(t, ind, out);
+                }
                 if let Some(e) = e {
                     out.push_str(&format!("{}else ", pad));
                     self.sub(e, ind, out);
